@@ -217,8 +217,8 @@ type boundsProver struct {
 	fn    *ssa.Function
 	facts []linFact
 	depth int
-	cur   ssa.Instruction // origin of the facts being added
-	site  ssa.Instruction // the instruction being proved: only facts established strictly before it may be used
+	cur   ssa.Instruction   // origin of the facts being added
+	site  ssa.Instruction   // the instruction being proved: only facts established strictly before it may be used
 	alt   []ssa.Instruction // case split on a phi: facts established before the end of the predecessor taken are usable too
 	vals  map[string]ssa.Value
 }
@@ -463,18 +463,60 @@ func (bp *boundsProver) proveSplit(depth int, goals ...linarith.Ineq) bool {
 	}
 	seen := map[*ssa.Phi]bool{}
 	var phis []*ssa.Phi
+	note := func(sy string) {
+		if ph, ok := bp.vals[sy].(*ssa.Phi); ok && !seen[ph] {
+			sb := bp.site.Block()
+			if ph.Block() == sb || ph.Block().Dominates(sb) {
+				seen[ph] = true
+				phis = append(phis, ph)
+			}
+		}
+	}
 	for _, g := range goals {
 		for sy := range symsOf(g.F) {
-			if ph, ok := bp.vals[sy].(*ssa.Phi); ok && !seen[ph] {
-				sb := bp.site.Block()
-				if ph.Block() == sb || ph.Block().Dominates(sb) {
-					seen[ph] = true
-					phis = append(phis, ph)
+			note(sy)
+		}
+	}
+	sort.Slice(phis, func(i, j int) bool { return phis[i].Name() < phis[j].Name() })
+	// then the phis the goal depends on through the facts (a capacity that is a phi of two sizes)
+	direct := len(phis)
+	want := map[string]bool{}
+	for _, g := range goals {
+		for sy := range symsOf(g.F) {
+			want[sy] = true
+		}
+	}
+	for round := 0; round < 3; round++ {
+		for _, f := range bp.facts {
+			if !bp.usable(f) {
+				continue
+			}
+			hit := false
+			for sy := range f.syms {
+				if want[sy] {
+					hit = true
+				}
+			}
+			if hit {
+				for sy := range f.syms {
+					want[sy] = true
 				}
 			}
 		}
 	}
-	sort.Slice(phis, func(i, j int) bool { return phis[i].Name() < phis[j].Name() })
+	var more []string
+	for sy := range want {
+		more = append(more, sy)
+	}
+	sort.Strings(more)
+	for _, sy := range more {
+		note(sy)
+	}
+	rest := phis[direct:]
+	sort.Slice(rest, func(i, j int) bool { return rest[i].Name() < rest[j].Name() })
+	if len(phis) > direct+4 {
+		phis = phis[:direct+4]
+	}
 	for _, ph := range phis {
 		all := true
 		for i, e := range ph.Edges {
@@ -1021,7 +1063,7 @@ func (x *Ctx) slicePostconditions(h *ssa.Function, depth int) []slicePost {
 					pf, _ := bp.intForm(p)
 					goals = []linarith.Ineq{linarith.GE(rc, pf)}
 				}
-				if !bp.prove(goals...) {
+				if !bp.proveSplit(0, goals...) {
 					holds = false
 					break
 				}
@@ -1069,7 +1111,6 @@ func (x *Ctx) nonNegImpliesLen(c *ssa.Call) (int, ssa.Value) {
 	}
 	return min, c.Call.Args[0]
 }
-
 
 // fieldOf: ld is a load of an integer struct field; returns the base pointer value, the struct type and the field index.
 func fieldOf(ld *ssa.UnOp) (ssa.Value, *types.Struct, int, bool) {
@@ -1296,7 +1337,6 @@ func (x *Ctx) fieldNonNeg(st *types.Struct, fi int) bool {
 	return ok
 }
 
-
 // recvFieldNonNeg: the weaker, function-local version of fieldNonNeg for a method whose receiver is always a fresh
 // zero value: base is fn's receiver; every library caller passes the address of a local of the struct type that
 // nothing has touched before the call; fn itself only stores non-negative values into the field (given that it was
@@ -1398,7 +1438,6 @@ func instrIndex(ins ssa.Instruction) int {
 	return -1
 }
 
-
 // scanBoundsOnly runs the scanner interpreter on a function that is not a scanner proper (a handler method, a
 // reader that delegates): the last []byte parameter is the input, every other parameter is unknown, calls it cannot
 // follow are opaque. Only its index / slice judgements are used, and only if the exploration was complete: no
@@ -1439,7 +1478,6 @@ func (x *Ctx) scanBoundsOnly(fn *ssa.Function) map[token.Pos]bool {
 	}
 	return out
 }
-
 
 // scannerFacts: call is F(data, …) for a library scanner F whose flat model was built in this run (R10g/h) and is
 // free of problems. On the path where its error is nil, its offset result is at least the least number of bytes
@@ -1508,7 +1546,6 @@ func (bp *boundsProver) scannerFacts(call *ssa.Call) {
 	}
 	bp.add(linarith.GE(of, linarith.Const(int64(least))), linarith.LE(of, al))
 }
-
 
 // containsStruct: a value of type t holds a value of struct type st inside itself (not behind a pointer).
 func containsStruct(t types.Type, st *types.Struct, depth int) bool {
